@@ -120,6 +120,12 @@ Definition mkAdd (a b : expr) : expr :=
 (* 1 - (1 - x) *)
 Definition one_minus_arg (e : expr) : option expr :=
   match e with Sub c x => if is_c c 1 then Some x else None | _ => None end.
+(* (r + b) - b = r, (b + r) - b = r  (e.g. a split time written as T + D, minus T) *)
+Definition add_cancel (a b : expr) : option expr :=
+  match a with
+  | Add a1 a2 => if expr_eqb a2 b then Some a1 else if expr_eqb a1 b then Some a2 else None
+  | _ => None
+  end.
 Definition mkSub (a b : expr) : expr :=
   match as_const a, as_const b with
   | Some x, Some y => Const (Qred (x - y))
@@ -128,7 +134,7 @@ Definition mkSub (a b : expr) : expr :=
       if expr_eqb a b then Const 0 else
       match ca, one_minus_arg b with
       | Some x, Some e => if Qeq_bool x 1 then e else Sub a b
-      | _, _ => Sub a b
+      | _, _ => match add_cancel a b with Some r => r | None => Sub a b end
       end
   end.
 Definition mkMul (a b : expr) : expr :=
@@ -258,11 +264,19 @@ Definition is_identity (i : instr) : bool :=
   | IPulse _ _ _ fs => forallb (fun f => is_c f 0) fs   (* a pulse of proportion 0 *)
   | _ => false
   end.
+(* x < y for syntactic reasons: 0 < a positive expression; x < x + (a positive expression) *)
+Definition is_lt (A : assum) (x y : expr) : bool :=
+  (is_c x 0 && is_pos A y) ||
+  match y with
+  | Add y1 y2 => (expr_eqb x y1 && is_pos A y2) || (expr_eqb x y2 && is_pos A y1)
+  | _ => false
+  end.
 Definition decide_ge (A : assum) (x y : expr) : option bool :=     (* x >= y ? *)
   match as_const x, as_const y with
   | Some a, Some b => Some (Qle_bool b a)
   | _, _ => if expr_eqb x y then Some true
             else if is_c y 0 && is_nonneg A x then Some true
+            else if is_lt A x y then Some false
             else None
   end.
 Fixpoint norm (A : assum) (p : prog) : prog :=
@@ -318,6 +332,13 @@ Fixpoint prog_eqb (p q : prog) : bool :=
 Definition nests (A : assum) (sg : list expr) (complex simple : prog) : bool :=
   forallb tfreeb sg && scalars_tfree complex &&
   prog_eqb (norm A (subst_prog sg complex)) (norm A simple).
+
+(** two-sided nesting: BOTH models are instantiated, [sgc] / [sgs] write the parameters of the complex / the simple
+    model over a common parameter vector (whose side conditions are [A]); e.g. bottlegrowth_split_mig_sel at T = 0
+    against split_mig_sel at nu1 = nu2 = 1.  [nests A sg c s] is the case where [sgs] is the identity. *)
+Definition nests2 (A : assum) (sgc sgs : list expr) (complex simple : prog) : bool :=
+  forallb tfreeb sgc && forallb tfreeb sgs && scalars_tfree complex && scalars_tfree simple &&
+  prog_eqb (norm A (subst_prog sgc complex)) (norm A (subst_prog sgs simple)).
 
 (** ** Relabelling the populations: [pm d] is the permutation used while the density has d populations
     (new axis i carries old population [nth i (pm d)]). *)
